@@ -28,6 +28,7 @@ def phys(ip: DimInterp):
 
 def check(ctx):
     repo = ctx.repo
+    ctx.rule("R08.6", "a function that takes a unit parameter hands it on to every callee that takes the same parameter (no silent fall-back to the callee's default unit)", 5)
     ctx.rule("R08.1", "every .to(unit) converts between equal dimensions; every bare scale the solver uses equals its "
                       "physical definition as an exact term in the unit sizes kL, kB, kI", 8)
     ctx.rule("R08.5", "time-dependent drives are re-evaluated exactly like in the constructor (same points, same A_scale, same components)", 2)
@@ -102,6 +103,7 @@ def check(ctx):
                consequence="pint raises DimensionalityError / wrong physical scale")
 
     # -- the time-dependent evaluation sites use the same scale and the same points as the constructor ------
+    units_forwarded(ctx)
     drive_siblings(ctx)
     # -- conversions in post-processing ------------------------------------------------------
     post_processing(ctx)
@@ -277,3 +279,36 @@ def drive_siblings(ctx):
     ctx.ob("R08.5", "update_epsilon evaluates epsilon at the same points (self.sites / each r in self.sites) with t=time", ok,
            detail={"init": a0, "update": a1}, where=fe.fq, construct="time-dependent epsilon evaluation", loc=loc(fe, fe.node),
            message=f"epsilon evaluation sites differ: init {a0}, update {a1}", consequence="a time-dependent disorder map is sampled at other positions after t=0")
+
+
+def units_forwarded(ctx):
+    from ..src import FuncInfo
+    repo = ctx.repo
+    for f in repo.all_functions():
+        if f.module.name.startswith(("tdgl.test", "tdgl.visualization")):
+            continue
+        ps = [a.arg for a in f.node.args.args + f.node.args.kwonlyargs]
+        ups = [p_ for p_ in ps if p_.endswith("_units")]
+        if not ups:
+            continue
+        env = repo.local_types(f)
+        for c in own_nodes(f.node):
+            if not isinstance(c, ast.Call):
+                continue
+            g = repo.resolve_call(f, c, env)
+            if not isinstance(g, FuncInfo) or g is f:
+                continue
+            gpos = [a.arg for a in g.node.args.args]
+            gps = gpos + [a.arg for a in g.node.args.kwonlyargs]
+            bound = 1 if gpos and gpos[0] in ("self", "cls") and isinstance(c.func, ast.Attribute) else 0
+            for p_ in ups:
+                if p_ not in gps:
+                    continue
+                kw = {k.arg for k in c.keywords}
+                star = any(k.arg is None for k in c.keywords)
+                positional = p_ in gpos and gpos.index(p_) - bound < len(c.args)
+                ok = p_ in kw or star or positional
+                ctx.ob("R08.6", f"{f.qual} -> {g.qual}: `{p_}` handed on", ok, where=f.fq,
+                       construct=f"{p_} not forwarded from {f.qual} to {g.qual}", loc=loc(f, c),
+                       message=f"{f.qual} takes `{p_}` but calls {g.qual}({norm(c)[len(norm(c.func)) + 1:][:60]}...) without it: the callee falls back to its default unit",
+                       consequence="the same physical input stated in other units gives another dimensionless problem (off by the ratio of the units)")
